@@ -68,3 +68,18 @@ package actionlint
 // context table, function signatures): an array type is never modified after its construction
 //@ immutable ArrayType.Elem C09 C10
 //@ immutable ArrayType.Deref C09 C10
+
+// the visitor's protocol: a job that was entered (Pre) is always left (Post) unless a pass failed -
+// whatever the job contains (no steps, a reusable workflow call, ...)
+//@ ghost jobPosted: set<ref>
+//@ func iface:Pass.VisitJobPost
+//@   effect jobPosted[node] = true
+//@ func (*Visitor).visitJob
+//@   props C09 C02 C05
+//@   ensures result == nil && len(v.passes) > 0 ==> jobPosted[n]
+//@   loop "range v.passes" #2:
+//@     invariant range_i >= 0 ==> jobPosted[n]
+
+// positions are values of the syntax tree: a Pos reachable from the tree is never modified in place
+//@ immutable Pos.Line C07 C09
+//@ immutable Pos.Col C07 C09
